@@ -37,8 +37,8 @@ def f16_boxed_ct_select_precision(case, impl, model, spec):
     return impl == model and impl != spec
 
 
-def f26_radix_error_precedence(case, impl, model, spec):
-    """F26: from_str_radix_vartime (Uint, BoxedUint with precision, num_traits::Num) on a string that is NOT a numeral
+def f31_radix_error_precedence(case, impl, model, spec):
+    """F31: from_str_radix_vartime (Uint, BoxedUint with precision, num_traits::Num) on a string that is NOT a numeral
     (it contains a character that is no digit of the radix) but whose digits read before that character already
     overflow the target: the decoder reports InputSize, the documentation promises InvalidDigit for such a string.
     Matches exactly that class: impl == model == InputSize, spec == InvalidDigit, the body (after an optional '+')
